@@ -703,7 +703,9 @@ func (c *c06Check) runHist(seed, run uint64, t *tape.Tape, s *C06Stats, lines *[
 					// raising a caught error again (caught once more, or ending the line) must
 					// leave the caught value as it was
 					opName = "reraise"
-					switch sub(2, 1, 1) {
+					switch sub(2, 1, 1, 1) {
+					case 3:
+						src = fmt.Sprintf("1.try.{|x| raise %s if x == 1; x}.err", recv.name) // guarded raise
 					case 0:
 						src = fmt.Sprintf("1.try.{|x| raise %s}.err", recv.name)
 					case 1:
